@@ -40,4 +40,27 @@ PROPS = {
                  "pool histories longer than one operation from an arbitrary summary are covered inductively, not executed",
                  "panicking destructors"],
     ),
+    "C16": dict(
+        kani_suites=["nm_impl"],
+        assumptions=[
+            "release-profile semantics (debug-assertions off)",
+            "single thread; bags put into an arbitrary state through module-private accessors (hook H2)",
+            "publication invariant assumed for the pre-state of copy_from/push: a bucket whose dirty bit is clear is already equal in the published bag, and dirty bits exist only for existing buckets - both are asserted as post-conditions of the insert harnesses (inductive)",
+            "documented edge outside the claim: a batch that wraps the local count back to the value already pushed (push skip heuristic)",
+            "Kani/CBMC/CaDiCaL trusted; unwinding assertions on",
+        ],
+        outside=["registries, thread-exit archiving and Report::collect (thread_local with destructors: unsupported in Kani, P4)", "concurrent reports / multiple threads",
+                 "copy_from with more than 4 (12 thorough) dirty buckets at once", "bucket lists other than 0, 1, 3 symbolic bounds and the fixed 66-bound list"],
+    ),
+    "C18": dict(
+        kani_suites=["alloc_tracker"],
+        assumptions=[
+            "release-profile semantics (debug-assertions off)", "single thread (Kani models thread_local as one static)",
+            "the wrapped allocator is a recording stub returning a solver-chosen pointer; std::panic::catch_unwind = call the closure",
+            "Operation constructed directly (Session/Report aggregation and rendering are outside)",
+            "Kani/CBMC/CaDiCaL trusted; unwinding assertions on",
+        ],
+        outside=["multi-thread totals and spans merged across threads", "Session / Report aggregation, JSON output", "panic_on_next_alloc feature",
+                 "more than 5 allocator calls per scenario; request sizes >= 2^40 (2^30 inside spans)"],
+    ),
 }
